@@ -39,6 +39,11 @@ chk("C13", "exploration",
     "trusts refcar's scan and stdlib hashes; random mutations leave the CBOR header intact to avoid parser-leniency false alarms",
     "runtime monitoring: reference-model oracle on returned Stats and accept/reject verdicts", "DESIGN.md §6 C13")
 
+chk("C07", "exploration",
+    "Runtime monitor: seeded archives (duplicates, same multihash under other codecs, same key with different bytes, identity twins) in 5 container forms x {UseWholeCIDs, StoreIdentityCIDs} x {embedded/generated index, caller-supplied index built by the library or by the reference in either codec}; every present CID and 4-5 absent neighbours are queried through blockstore.NewReadOnly, OpenReadOnly and storage.OpenReadable; Has/Get/GetSize/GetStream/Roots answers are compared with a reference front-to-back scan, AllKeysChan with the scan's CID sequence in order, and the two front-ends with each other.",
+    "trusts refcar's scan; for an absent identity CID under StoreIdentityCIDs a size answer and a not-found answer of GetSize are both accepted",
+    "runtime monitoring: reference-scan oracle over public read API results, cross-API agreement", "DESIGN.md §6 C07")
+
 NOT_YET = {}
 
 def main():
